@@ -384,6 +384,7 @@ structure Created where
   odcid : CID
   rscid : Option CID
   underRetry : Bool
+  dcid : CID := []       -- DCID of the datagram that created it
 deriving Repr, DecidableEq, Inhabited
 
 structure World where
@@ -398,6 +399,7 @@ structure World where
   -- assumption monitors (ghost)
   vRand : Bool := false    -- os.urandom produced a connection ID that is already routed
   vSeal : Bool := false    -- a datagram carried a token sealed under the server's key that the server never issued
+  vRetryDcid : Bool := false  -- peer: a token-bearing Initial whose DCID is not the source CID of the Retry it answers
 deriving Repr, DecidableEq, Inhabited
 
 inductive Action where
@@ -454,13 +456,21 @@ def World.markSeal (w : World) (tok : Token) : World :=
 def World.issueToken (w : World) (addr : Nat) (dcid rand : CID) : World :=
   { w with tokens := w.tokens ++ [(addr, dcid, rand)] }
 
+/-- the connection IDs the server has handed to the client of a new connection: its host CID, and — when the
+    connection is created from a token-bearing Initial under address validation — the DCID of that Initial, which
+    is the source connection ID of the server's own Retry packet (monitor `vRetryDcid`: it equals the sealed one) -/
+def serverIssued (rand dcid : CID) : Option CID → List CID
+  | some _ => [rand, dcid]
+  | none => [rand]
+
 /-- "create new connection" + "register callbacks" + the two routing entries -/
 def World.addServerConn (w : World) (addr : Nat) (dcid rand odcid : CID) (rscid : Option CID) : World :=
   let c := w.conns.length
-  { w with conns := w.conns ++ [({ ss := true, p := { issuedG := [rand] } } : Conn)],
+  { w with conns := w.conns ++ [({ ss := true, p := { issuedG := serverIssued rand dcid rscid } } : Conn)],
            tbl := (w.tbl.set dcid c).set rand c,
-           createdG := w.createdG ++ [⟨c, addr, odcid, rscid, w.retry⟩],
-           vRand := w.vRand || ((w.tbl.set dcid c).keys.contains rand) }
+           createdG := w.createdG ++ [⟨c, addr, odcid, rscid, w.retry, dcid⟩],
+           vRand := w.vRand || ((w.tbl.set dcid c).keys.contains rand),
+           vRetryDcid := w.vRetryDcid || (match rscid with | some r => decide (dcid ≠ r) | none => false) }
 
 /-- `protocol.datagram_received(data, addr)` -/
 def World.deliver (w : World) (c : Nat) (tat : Option Nat) (evs txevs : List Ev) (act : Action) : World × Out :=
